@@ -25,8 +25,9 @@ CONSTANTS
   MaxConnEv = 0
   MaxApi = 2
   StopKinds <- SK_Del
+  OutKinds <- OK_Del
   Faults <- NoFaults
   Dev <- NoDev
 CONSTRAINT NoOverflow
 CHECK_DEADLOCK FALSE
-INVARIANTS NoViolation C08_Mirror C09_Final C18_Consistent C19_Ctx
+INVARIANTS NoViolation C08_Mirror C09_Final C18_Consistent C19_Ctx C03_Bound
